@@ -52,6 +52,10 @@ type deepView struct {
 	// idxEnv: while an unrolled item of a range-over-literal loop is evaluated,
 	// the loop's index value stands for this constant
 	idxEnv map[ssa.Value]int64
+	// throughFields: resolve() also follows loads of fields of locally built
+	// struct values to the value stored (off by default: most rules want to see
+	// the field that is read)
+	throughFields bool
 }
 
 type dinstr struct {
@@ -261,6 +265,14 @@ func (d *deepView) resolve(v ssa.Value, fr *frame) dval {
 				}
 				return dval{v, fr}
 			}
+			// load of a field of a locally built struct value
+			if fa, isFA := x.X.(*ssa.FieldAddr); isFA && depth < 30 && d.throughFields {
+				if fv, ok := d.structField(fa.X, fr, fa.Field, nil, 0); ok && !(fv.v == v && fv.fr == fr) {
+					v, fr = fv.v, fv.fr
+					continue
+				}
+				return dval{v, fr}
+			}
 			// load of a single-assignment local cell
 			cellD := d.resolve(x.X, fr)
 			a, ok := cellD.v.(*ssa.Alloc)
@@ -429,6 +441,59 @@ func (d *deepView) resolveAll(v ssa.Value, fr *frame) dval {
 		r = n
 	}
 	return r
+}
+
+// alternatives: the values v may stand for when it is computed from the element
+// of a local literal table at the running index of a range loop: one resolved
+// value per element (a single resolved value otherwise).
+func (d *deepView) alternatives(v ssa.Value, fr *frame) []dval {
+	old := d.throughFields
+	d.throughFields = true
+	defer func() { d.throughFields = old }()
+	iv, n, ok := d.rangeLiteralDeep(v, fr)
+	if !ok || n > 64 {
+		return []dval{d.resolveAll(v, fr)}
+	}
+	var out []dval
+	for k := int64(0); k < n; k++ {
+		d.under(listItem{idx: map[ssa.Value]int64{iv: k}}, func() { out = append(out, d.resolveAll(v, fr)) })
+	}
+	return out
+}
+
+// rangeLiteralDeep is rangeLiteral through local struct copies (d := table[i]; d.f).
+func (d *deepView) rangeLiteralDeep(v ssa.Value, fr *frame) (ssa.Value, int64, bool) {
+	if iv, n, ok := d.rangeLiteral(v, fr); ok {
+		return iv, n, true
+	}
+	// follow loads of fields of a local that was assigned from the element
+	seen := map[ssa.Value]bool{}
+	cur := v
+	for i := 0; i < 6 && cur != nil && !seen[cur]; i++ {
+		seen[cur] = true
+		switch x := cur.(type) {
+		case *ssa.UnOp:
+			cur = x.X
+		case *ssa.FieldAddr:
+			cur = x.X
+		case *ssa.Field:
+			cur = x.X
+		case *ssa.Alloc:
+			var stored ssa.Value
+			n := 0
+			d.eachStoreTo(x, fr, func(st *ssa.Store, f *frame) { stored, n = st.Val, n+1 })
+			if n != 1 {
+				return nil, 0, false
+			}
+			if iv, cnt, ok := d.rangeLiteral(stored, fr); ok {
+				return iv, cnt, true
+			}
+			cur = stored
+		default:
+			return nil, 0, false
+		}
+	}
+	return nil, 0, false
 }
 
 // uniqueResult: the one value fn returns at result index idx, ignoring returns
